@@ -541,3 +541,59 @@ func (e *Engine) cacheRewrite(st *State, x *ssa.Call, key string) {
 	}
 	e.Violations = append(e.Violations, v)
 }
+
+// noteSharedAccess enforces "a shared cell that is written atomically is never read non-atomically": the
+// other goroutine's atomic store races with a plain load (Go memory model), even if all writers are atomic.
+func (e *Engine) noteSharedAccess(st *State, p PtrV, atomic, write bool) {
+	key := fmt.Sprintf("%d", p.Obj)
+	for _, pe := range p.Path {
+		if pe.Idx != nil {
+			key += fmt.Sprintf("[%d]", pe.Idx.ID)
+		} else {
+			key += fmt.Sprintf(".%d", pe.Field)
+		}
+	}
+	if st.atomicW == nil {
+		st.atomicW, st.plainR = map[string]bool{}, map[string]bool{}
+	}
+	bad := false
+	switch {
+	case atomic && write:
+		st.atomicW[key] = true
+		bad = st.plainR[key]
+	case !atomic && !write:
+		st.plainR[key] = true
+		bad = st.atomicW[key]
+	}
+	if !bad {
+		return
+	}
+	where, site := "?", "?"
+	if e.curInstr != nil {
+		where, site = e.whereOf(st, e.curInstr)
+	}
+	k := "ownership|mixed|" + where
+	if e.seenViol[k] {
+		return
+	}
+	e.seenViol[k] = true
+	v := Violation{Kind: "ownership", Label: "a shared location that is stored atomically is also read non-atomically (data race with a concurrent caller)", Where: where, Site: site, Model: map[string]uint64{}}
+	if r, m := e.check(append([]*Term(nil), st.pc...)); r == RSat && m != nil {
+		for kk, xx := range m.BV {
+			v.Model[kk] = xx
+		}
+		for kk, xx := range m.B {
+			if xx {
+				v.Model[kk] = 1
+			} else {
+				v.Model[kk] = 0
+			}
+		}
+		for an, am := range m.Arr {
+			for i, x := range am.M {
+				v.Model[fmt.Sprintf("%s[%d]", an, i)] = x
+			}
+		}
+	}
+	e.Violations = append(e.Violations, v)
+}
